@@ -145,6 +145,7 @@ def pipeline_traces(ck, traces):
     with ThreadPoolExecutor(max_workers=8) as ex:
         verdicts = list(ex.map(lambda t: pipebind.validate(t[2]), tovalidate))
     seen_ref = set()
+    drift = []
     for (n, order, ev), v in zip(tovalidate, verdicts):
         first = n not in seen_ref
         seen_ref.add(n)
@@ -154,10 +155,14 @@ def pipeline_traces(ck, traces):
             if v["owner"] == "C12":
                 ck.violation("pipeline-trace", {"project": n, "order": order}, observed=v["next_event"], detail=detail)
             else:
-                raise tlc.TLCFailure(detail + " - not a C12 clause: the as-built stage model of spec/Pipeline.tla no longer describes the code")
+                drift.append(detail + " - not a C12 clause: the as-built stage model of spec/Pipeline.tla no longer describes the code")
         elif not first:
             ck.violation("behaviour-differs", {"project": n, "order": order},
                          detail=f"project {n}: the sequence of pipeline steps (parse / correlate / name / write order) differs between enumeration orders {traces[n][0][0]} and {order}")
+    if drift and not ck.violations:
+        raise tlc.TLCFailure(drift[0])
+    if drift:
+        ck.notes["pipeline_model_drift"] = drift[:3]
     ck.coverage["traces_validated_against_impl"] = len(verdicts)
     ck.coverage["pipeline_runs_compared"] = sum(len(r) for r in traces.values())
 
